@@ -398,8 +398,10 @@ def client_timing_extra(ctx, facts):
             ctx.violation("client-timing", v)
 
 
-def timing_extra(ctx, facts):
-    client_timing_extra(ctx, facts)
+def timing_extra(ctx, facts, kind="deadline", with_client=True):
+    if with_client:
+        client_timing_extra(ctx, facts)
+        tlsarms_extra(ctx, facts)
     rc, rep, out, err = run_harness(["timing", "-seed", str(ctx.seed)] + (["-long"] if ctx.tier == "thorough" else []), timeout=600)
     if rep is None:
         ctx.violation("timing-crash", {"what": "timing suite crashed", "stderr": tail(err)}, found_input=False)
@@ -407,8 +409,40 @@ def timing_extra(ctx, facts):
     ctx.cov["timing_scenarios"] = rep["evaluations"]
     ctx.cov["evaluations"] += rep["evaluations"]
     ctx.cov["samples"] += rep.get("samples", [])[:2]
-    for v in rep["violations"][:4]:
+    for v in [x for x in rep["violations"] if x.get("kind") == kind][:4]:
         ctx.violation("timing", v)
+
+
+def tlsarms_extra(ctx, facts):
+    """deadlines set on the connection under the TLS layer vs the model's arms (C15, TLS handshake included)"""
+    rep, rows = run_suite_with_model(ctx, facts, "tlsarms", [])
+    if rep is None:
+        return
+    ctx.cov["tls_arm_cases"] = len(rows)
+    ctx.cov["evaluations"] = ctx.cov.get("evaluations", 0) + len(rows)
+    ctx.cov["samples"] += rep.get("samples", [])[:1]
+    bad = 0
+    for g, cmd, impl, model in rows:
+        mev = model.split(" ; ")
+        marms = [e for e in mev if e in ("armr", "armw")]
+        mresp = sum(1 for e in mev if e.startswith("wrote"))
+        try:
+            iarms = [x for x in impl.split(" ")[0].split("=", 1)[1].split(",") if x]
+            iresp = int(impl.split("responses=")[1])
+        except Exception:
+            iarms, iresp = ["?"], -1
+        if "hs:ok" in mev and iarms[-2:] == ["armw", "armw"]:
+            iarms = iarms[:-2]      # crypto/tls's own write deadline around the close-notify alert
+        if iarms != marms or iresp != mresp:
+            bad += 1
+            if bad <= 3:
+                ctx.violation("tls-arms", {"what": "deadlines set on a TLS connection (SetDeadline counts as read+write) differ from the model: a deadline is armed although its timeout is zero, or not re-armed per message",
+                                           "case": short(cmd, 600), "implementation_deadline_calls": iarms, "model_arms": marms,
+                                           "responses_received": iresp, "responses_expected": mresp})
+
+
+def stall_extra(ctx, facts):
+    timing_extra(ctx, facts, kind="stall-held", with_client=False)
 
 
 
@@ -450,6 +484,54 @@ def make_simple_check(pid, suite, args_quick, args_thorough, what, assume, exhau
             ctx.violation("theorem", broken, found_input=False)
         return ctx.finish()
     return chk
+
+
+def check_C16(ctx):
+    facts = prepare(ctx)
+    broken = None
+    if not facts["prop_ok"]:
+        broken = theorem_broken(ctx, facts, "Properties/C16.v no longer checks: the assignments of DefaultServerTLSConfig / DefaultClientTLSConfig are not the unconditional hardening the theorem is about")
+    if not facts.get("harness_ok"):
+        ctx.violation("harness-build", {"what": "harness does not build against the current tree", "log": tail(facts.get("harness_log", ""))}, found_input=False)
+        return ctx.finish()
+    rep, rows = run_suite_with_model(ctx, facts, "tls", [])
+    # where the model could not interpret the configuration, judge the implementation by the configuration the property demands
+    need = [r for r in rows if r[3] == "config-not-understood"]
+    intended = {}
+    if need and facts.get("ocaml_ok"):
+        cmds = []
+        for g, cmd, impl, model in need:
+            parts = cmd.split(" ")
+            parts[1] = "intended-server" if parts[1].startswith("server") else "intended-client"
+            cmds.append(" ".join(parts))
+        p = subprocess.run([os.path.join(core.VERIF, "ocaml", "driver")], input=("\n".join(cmds) + "\n").encode(), stdout=subprocess.PIPE)
+        outs = p.stdout.decode().split("\n")
+        for (g, cmd, impl, model), o in zip(need, outs):
+            intended[cmd] = o
+    bad = 0
+    for g, cmd, impl, model in rows:
+        expect = intended.get(cmd, model)
+        if impl != expect:
+            bad += 1
+            if bad <= 4:
+                ctx.violation("peer", {"what": "this peer was %s although the property (TLS >= 1.2, verified certificate) says it must be %s" % (impl, expect),
+                                       "case": cmd, "format": "tls <role> <max TLS version hex> <certificate> <plaintext>; role *-weak = the tls.Config held MinVersion TLS 1.0 / ClientAuth VerifyClientCertIfGiven before the Default*TLSConfig call",
+                                       "implementation": impl, "specification": expect, "model_of_current_assignments": model})
+    if rep:
+        ctx.cov["evaluations"] = len(rows)
+        ctx.cov["distinct_nontrivial"] = rep["distinct_nontrivial"]
+        ctx.cov["traces_validated_against_impl"] = len(rows)
+        ctx.cov["rule"] = rep["rule"]
+        ctx.cov["distribution"] = rep.get("distribution")
+        ctx.cov["samples"] += rep.get("samples", [])
+        ctx.cov["exhaustive"] = True
+    ctx.assumptions += [
+        "TLS.v specifies what crypto/tls does with MinVersion / ClientAuth / InsecureSkipVerify (15 lines); crypto/tls and crypto/x509 are NOT verified: the specification is validated on every run against the real library over the entire peer space of the property on loopback, for a fresh configuration and for one that held weaker settings before the call",
+        "translator transcribes the assignments of DefaultServerTLSConfig / DefaultClientTLSConfig; any statement it does not understand makes the configuration 'not understood' and the theorem fail",
+    ]
+    if broken and not ctx.violations:
+        ctx.violation("theorem", broken, found_input=False)
+    return ctx.finish()
 
 
 def shutdown_compare(impl, model):
@@ -543,7 +625,7 @@ def check_C12(ctx):
 
 CHECKS = {"C18": check_C18, "C19": check_C19, "C02": check_C02, "C03": check_C03, "C13": check_C13,
           "C07": make_session_check("C07", 150, 3000), "C08": make_session_check("C08", 150, 3000),
-          "C09": make_session_check("C09", 150, 3000), "C10": make_session_check("C10", 150, 3000),
+          "C09": make_session_check("C09", 150, 3000), "C10": make_session_check("C10", 150, 3000, stall_extra),
           "C15": make_session_check("C15", 100, 1500, timing_extra),
           "C17": make_simple_check("C17", "accept", ["-len", "4"], ["-len", "6"],
                                    "behaviour of Serve on this sequence of Accept results differs from the model of the accept loop (sleeps, served connections, result)",
@@ -555,10 +637,7 @@ CHECKS = {"C18": check_C18, "C19": check_C19, "C02": check_C02, "C03": check_C03
                                    ["Client.v is a hand-written model of Client.Send / DiscoverVersions, tied to /repo by running the real Client over loopback TLS against a scripted peer (certificates generated in-process) and the extracted model on the same payload and reply bytes",
                                     "crypto/tls transport, Connect's dialling are exercised, not modelled; deadlines set on the tls.Conn are not observable: the model's arm events are projected away and the three real-time client scenarios stand in"] + CODEC_ASSUME,
                                    project=client_sent_only, kinds=("client-panic", "client-deadline")),
-          "C16": make_simple_check("C16", "tls", [], [],
-                                   "crypto/tls admitted / refused this peer differently from the acceptance specification applied to the regenerated default configuration",
-                                   ["TLS.v specifies what crypto/tls does with MinVersion / ClientAuth / InsecureSkipVerify (15 lines); crypto/tls and crypto/x509 are NOT verified: the specification is validated on every run against the real library over the entire peer space of the property (46 peers) on loopback",
-                                    "translator transcribes the assignments of DefaultServerTLSConfig / DefaultClientTLSConfig; any statement it does not understand makes the configuration 'not understood' and the theorem fail"], exhaustive=True),
+          "C16": check_C16,
           "C20": make_simple_check("C20", "discover", ["-sup", "2", "-offer", "3"], ["-sup", "3", "-offer", "4"],
                                    "reply of the built-in Discover Versions handler (or its aliasing with the configuration) differs from the model",
                                    ["Discover.v is a hand-written model of handleDiscoverVersions / Serve's defaulting with Go slices made explicit; tied to /repo by calling the real handler (through the verif build-tag hook) on every (supported, offer) pair up to the length bounds and inspecting the reply for shared memory",
